@@ -2,7 +2,7 @@ use std::io;
 
 use anyhow::Result;
 use codespan_reporting::term::termcolor::StandardStream;
-use syntree::node::Children;
+use syntree::node::{Children, SkipTokens};
 use syntree::{Span, Tree};
 
 use crate::db;
@@ -82,7 +82,7 @@ pub fn query<'a>(
         ctx: Context::new(),
         source: parsed.source,
         db,
-        children: parsed.tree.children(),
+        children: parsed.tree.children().skip_tokens(),
         options,
         descriptions,
     }
@@ -98,7 +98,7 @@ pub struct Query<'a> {
     pub(crate) ctx: Context,
     pub(crate) source: &'a str,
     pub(crate) db: &'a db::Db,
-    pub(crate) children: Children<'a, Syntax, u32, u32>,
+    pub(crate) children: SkipTokens<Children<'a, Syntax, u32, u32>>,
     pub(crate) options: Options,
     pub(crate) descriptions: &'a mut Vec<Description>,
 }
